@@ -43,7 +43,7 @@ KEYS = {
 }
 # string keys that look like the names klepto itself uses inside a directory archive (entry prefix K_, temporary prefix .I_,
 # leading underscore): a second, small key domain for every configuration
-PREFIX_KEYS = ['Kelvin', '_count', '.I_x', 'K', 'a']
+PREFIX_KEYS = ['Kelvin', '_count', '.I_x', 'K', 'a', 'L' * 300]      # ... and a key longer than a file name may be (a stringmap key easily is)
 VALUES = {
     'any': ['v1', 2, None, [1, 2.5], {'n': (1, 2)}],
     'fs': ['v1', 2, None, [1, 2.5], {'n': (1, 2)}],
